@@ -36,6 +36,7 @@ let dispatch (name : string) (args : M.n list) : M.n list list =
   | "LC3" -> M.run_lc3 args
   | "SRC" -> M.run_src args
   | "DBG" -> M.run_dbg args
+  | "C20" -> M.run_c20 args
   | _ -> failwith ("unknown case kind " ^ name)
 
 let () =
